@@ -431,6 +431,14 @@ Definition ms_consistence (n : node) (lost : list Z) : result (node * list outpu
   | None => bind (check_master n1) (fun ok => Ok (n1, o1, if ok then None else Some ELECTION))
   end.
 
+(* _common_next of _MasterSlaveState / _WorkingState: the Starter and the Stopper are given THE set of lost processes
+   that _master_next iterates afterwards, and Commander.on_instances_invalidation removes IN PLACE the processes whose
+   start / stop was pending on a lost instance. Abstraction of the process plane: when the Starter is busy at this
+   evaluation (oracle), the start of every lost process was pending there and the set is emptied; otherwise it is left
+   untouched (the Stopper never removes anything here). Only called when some instance is lost. *)
+Definition starter_filter (lost : list Z) (lostp : bool) (orc : oracle) : bool :=
+  match lost with [] => lostp | _ => lostp && negb (or_starting orc) end.
+
 (* the slave decision of the ending states *)
 Definition ending_slave_next (n : node) (me_state : sstate) : sstate :=
   match master_state n with
@@ -513,6 +521,8 @@ Definition fsm_next (n : node) (orc : oracle) (now : Z) : eval :=
               | Crash k => Crash k
               | Ok (n3, o3, Some _) => Ok (n3, o1 ++ o3, Some FINAL)
               | Ok (n3, o3, None) =>
+                  (* _common_next: the lost processes are filtered as well (starter_filter), but the ending states
+                     never read them afterwards *)
                   let oc := match lost with [] => [] | _ => [JobsInvalidation lost] end in
                   if is_master n3
                   then Ok (n3, o1 ++ o3 ++ oc, Some (if or_stopping orc then st else FINAL))
@@ -525,7 +535,8 @@ Definition fsm_next (n : node) (orc : oracle) (now : Z) : eval :=
               | Ok (n3, o3, None) =>
                   let oc := match lost with [] => [] | _ => [JobsInvalidation lost] end in
                   if is_master n3 then
-                    let ofail := if lostp then [FailureJob] else [] in
+                    (* _master_next feeds the failure handler with what the Starter left in the set *)
+                    let ofail := if starter_filter lost lostp orc then [FailureJob] else [] in
                     match st with
                     | DISTRIBUTION =>
                         Ok (n3, o1 ++ o3 ++ oc ++ ofail, Some (if or_starting orc then DISTRIBUTION else OPERATION))
